@@ -135,7 +135,7 @@ def closure_worker(which):
     return {"which": which, "viols": rows, "functions": sorted(fns)}
 
 
-def check(ctx, rep: Report):
+def _check_main(ctx, rep: Report):
     rep.rules["C04.AT"] = ("in-place routes: no raise / may-raise primitive / user callback after the first write to a "
                            "pre-existing (RECV/ARG) object, loops unrolled twice; non-trivial = path containing a dirty write")
     rep.envs.append({"_inplace": True, "frozen": False, "do_not_copy": False})
@@ -181,3 +181,9 @@ def check(ctx, rep: Report):
         rep.oblige("C04.NEW", f"{r['fam']}.prepare", not bad)
         for row in bad[:1]:
             rep.violate(Violation("C04.NEW", f"C04.NEW|{r['fam']}", "prepare() re-inserts into the old collection instead of a new one", "", "prepare"))
+
+
+def check(ctx, rep):
+    from . import metarules, shared
+    _check_main(ctx, rep)
+    metarules.recursion_threads_guard(ctx, rep, "C04.REC")
